@@ -34,9 +34,9 @@ def run(ctx, res):
         for k in range(rng.choice([1, 1, 2, 4])):
             r = rng.random()
             if r < 0.4:
-                body = "".join(rng.choice(PRINTABLE) for _ in range(rng.choice([0, 1, 5, 20, 60])))
+                body = "".join(rng.choice(PRINTABLE) for _ in range(rng.choice([0, 1, 5, 20, 60]) if rng.random() < 0.95 else rng.choice([250, 256, 300, 700])))
             else:
-                body = "".join(rng.choice(kws + ["A", "X1", " ", " ", "\"", ":", "10", "to", "Go", "$", "(", ")", "'"]) for _ in range(rng.choice([1, 2, 4, 9])))
+                body = "".join(rng.choice(kws + ["A", "X1", " ", " ", "\"", ":", "10", "to", "Go", "$", "(", ")", "'"]) for _ in range(rng.choice([1, 2, 4, 9]) if rng.random() < 0.95 else rng.choice([60, 130])))
             lines.append(f"{rng.randint(1, 65535)}{rng.choice([' ', ' ', ''])}{body}")
         text = "\n".join(lines) + ("\n" if rng.random() < 0.8 else "")
         status, bas = B.lst2bas(ctx, text)
